@@ -86,4 +86,52 @@ CATALOGUE = [
     M('endpoint-guard-half', ['C16', 'C04', 'C13'], [(PI, "if se1.point != inter && other1.point != inter {", "if se1.point != inter {")], {'C16': 'G-endpoint', 'C04': 'G-endpoint'}),
     M('twin-types-swapped', ['C06', 'C14', 'C16'], [(PI, "                se2.set_edge_type(EdgeType::NonContributing);\n                if se1.is_in_out() == se2.is_in_out() {\n                    se1.set_edge_type(EdgeType::SameTransition)\n                } else {\n                    se1.set_edge_type(EdgeType::DifferentTransition)\n                }",
                                                      "                se2.set_edge_type(EdgeType::NonContributing);\n                if se1.is_in_out() != se2.is_in_out() {\n                    se1.set_edge_type(EdgeType::SameTransition)\n                } else {\n                    se1.set_edge_type(EdgeType::DifferentTransition)\n                }")], {'C16': 'T-code'}),
+    # ---- C02 parent table / assembly
+    M('hole-branch-on-InOut', ['C02', 'C01'], [(CE, "if prev_in_result.get_result_transition() == ResultTransition::OutIn {", "if prev_in_result.get_result_transition() == ResultTransition::InOut {")], {'C02': 'T-parent'}),
+    M('hole-of-lower-hole', ['C02'], [(CE, "                    let hole_of = Some(parent_contour_id);", "                    let hole_of = Some(lower_contour_id);")], {'C02': 'T-parent'}),
+    M('push-onto-wrong-contour', ['C02'], [(CE, "                    contours[parent_contour_id as usize].hole_ids.push(contour_id);", "                    contours[lower_contour_id as usize].hole_ids.push(contour_id);")], {'C02': 'T-parent'}),
+    M('assemble-non-exterior', ['C02', 'C04'], [(MOD, ".filter(|contour| contour.is_exterior())", ".filter(|contour| !contour.is_exterior())")], {'C02': 'T-assemble'}),
+    B('parent-depth-lazy', ['C02'], [(CE, "                    let depth = contours[lower_contour_id as usize].depth + 1;\n                    Contour::new(hole_of, depth)", "                    Contour::new(hole_of, contours[lower_contour_id as usize].depth + 1)")]),
+    # ---- C03
+    M('setter-holds-borrow', ['C03'], [(SE, "    pub fn set_left(&self, left: bool) {\n        self.mutable.borrow_mut().left = left\n    }", "    pub fn set_left(&self, left: bool) {\n        let mut m = self.mutable.borrow_mut();\n        if self.is_left() != left {\n            m.left = left\n        }\n    }")], {'C03': 'P-refcell'}),
+    M('compute_fields-recursive', ['C03', 'C18'], [(CF, "    if let Some(prev) = maybe_prev {\n        if event.is_subject == prev.is_subject {", "    if let Some(prev) = maybe_prev {\n        if prev.get_edge_type() == EdgeType::NonContributing {\n            compute_fields(prev, prev.get_prev_in_result().as_ref(), operation);\n        }\n        if event.is_subject == prev.is_subject {")], {'C03': 'P-norec', 'C18': 'K-norec'}),
+    M('delete-InOut-guard', ['C03'], [(CE, "                let depth = if lower_contour_id < 0 || lower_contour_id as usize >= contours.len() {\n                    debug_assert!(false, \"Invalid lower_contour_id should be impossible.\");\n                    0\n                } else {\n                    contours[lower_contour_id as usize].depth\n                };", "                let depth = contours[lower_contour_id as usize].depth;")], {'C03': 'P-sentinel'}),
+    M('new-unwrap', ['C03'], [(CF, "        } else if let Some(prev_of_prev) = prev.get_prev_in_result() {\n            event.set_prev_in_result(&prev_of_prev);", "        } else if prev.get_prev_in_result().is_some() {\n            event.set_prev_in_result(&prev.get_prev_in_result().unwrap());")], {'C03': 'P-inventory'}),
+    M('prev_in_result-strong', ['C18', 'C03'], [(SE, "    prev_in_result: Weak<SweepEvent<F>>,", "    prev_in_result: Option<Rc<SweepEvent<F>>>,"), (SE, "                prev_in_result: Weak::new(),", "                prev_in_result: None,"), (SE, "        self.mutable.borrow().prev_in_result.upgrade()", "        self.mutable.borrow().prev_in_result.clone()"), (SE, "        self.mutable.borrow_mut().prev_in_result = Rc::downgrade(prev_in_result);", "        self.mutable.borrow_mut().prev_in_result = Some(prev_in_result.clone());"), (SE, "        self.mutable.borrow_mut().prev_in_result = Weak::new();", "        self.mutable.borrow_mut().prev_in_result = None;")], {'C18': 'K-events'}),
+    B('add-getter', ['C03', 'C12'], [(SE, "    pub fn is_in_out(&self) -> bool {", "    pub fn flags(&self) -> (bool, bool) {\n        let m = self.mutable.borrow();\n        (m.in_out, m.other_in_out)\n    }\n\n    pub fn is_in_out(&self) -> bool {")]),
+    # ---- C18
+    M('revert-K1-clear', ['C18', 'C03'], [(TR, "        teardown(self.root_mut().take());\n        self.size = 0;", "        self.root_mut().take();\n        self.size = 0;")], {'C18': 'K-teardown'}),
+    M('revert-K1-intoiter-drop', ['C18'], [(TR, "impl<K, V> Drop for IntoIter<K, V> {\n    fn drop(&mut self) {\n        teardown(self.cur.take());\n    }\n}\n", "")], {'C18': 'K-teardown'}),
+    M('teardown-left-only', ['C18'], [(TR, "        pending.extend(node.pop_left());\n        pending.extend(node.pop_right());", "        pending.extend(node.pop_left());")], {'C18': 'K-teardown'}),
+    M('recursive-height', ['C18'], [(TR, "    pub fn len(&self) -> usize {\n        self.size\n    }", "    pub fn len(&self) -> usize {\n        debug_assert!(Self::height(self.root_ref()) <= self.size);\n        self.size\n    }\n\n    fn height(n: &Option<Box<Node<K, V>>>) -> usize {\n        match n {\n            Some(b) => 1 + Self::height(&b.left).max(Self::height(&b.right)),\n            None => 0,\n        }\n    }")], {'C18': 'K-norec'}),
+    # ---- C08 / C10
+    M('epsilon-threshold', ['C08', 'C10'], [(SI, "    if sqr_kross > F::zero() {\n        let s = cross_product(e, vb) / kross;", "    if sqr_kross > F::epsilon() {\n        let s = cross_product(e, vb) / kross;")], {'C08': 'R-degree'}),
+    B('s-range-tolerance-dimensionless', ['C08'], [(SI, "        if s < F::zero() || s > F::one() {", "        if s < F::zero() - F::epsilon() || s > F::one() {")]),   # s is a ratio (degree 0): a tolerance on it is scale-invariant, C08's scaling clause still holds
+    M('compare-area-with-coord', ['C08'], [(CS, "            if sa_l == 0. {\n                return less_if(sa_r > 0.);", "            if sa_l == 0. || sa_l < se_old_l.point.x.into() {\n                return less_if(sa_r > 0.);")], {'C08': 'R-degree'}),
+    M('inter-plus-one', ['C08'], [(SI, "        x: p.x + s * d.x,", "        x: p.x + s * d.x + F::one() - F::one(),")], {'C08': 'R-degree'}),
+    B('kross-ne-zero', ['C08', 'C16'], [(SI, "    let mut sqr_kross = kross * kross;\n    let sqr_len_a = dot_product(va, va);\n\n    if sqr_kross > F::zero() {", "    let mut sqr_kross = kross * kross;\n    let sqr_len_a = dot_product(va, va);\n\n    if F::zero() < sqr_kross {")]),
+    M('nextafter-f32-down', ['C10'], [(HP, "            self.next_after(std::f32::INFINITY)", "            self.next_after(std::f32::NEG_INFINITY)")], {'C10': 'N-sibling'}),
+    M('robust-roundtrip-f32', ['C10'], [(SA, "    RobustCoord { x: p.x, y: p.y }", "    RobustCoord { x: F::from(p.x.to_f32().unwrap()).unwrap(), y: p.y }")], {'C10': 'N-generic'}),
+    M('orient-swapped-args', ['C10', 'C15'], [(SA, "orient2d(coord_to_robust(p0), coord_to_robust(p1), coord_to_robust(p2))", "orient2d(coord_to_robust(p1), coord_to_robust(p0), coord_to_robust(p2))")], {'C10': 'N-orient'}),
+    # ---- C12
+    M('static-cache', ['C12'], [(MOD, "fn boolean_operation<F>(subject: &[Polygon<F>], clipping: &[Polygon<F>], operation: Operation) -> MultiPolygon<F>\nwhere\n    F: Float,\n{", "static CALLS: std::sync::atomic::AtomicUsize = std::sync::atomic::AtomicUsize::new(0);\n\nfn boolean_operation<F>(subject: &[Polygon<F>], clipping: &[Polygon<F>], operation: Operation) -> MultiPolygon<F>\nwhere\n    F: Float,\n{\n    CALLS.fetch_add(1, std::sync::atomic::Ordering::Relaxed);")], {'C12': 'D-global'}),
+    M('address-tiebreak', ['C12'], [(CS, "                less_if(se_old_l.contour_id < se_new_l.contour_id)", "                less_if((Rc::as_ptr(se_old_l) as usize) < (Rc::as_ptr(se_new_l) as usize))")], {'C12': 'D-addr'}),
+    M('iterate-hashset', ['C12'], [(CE, "    for i in 0..(result_events.len() as i32) {\n        if processed.contains(&i) {\n            continue;\n        }", "    for i in 0..(result_events.len() as i32) {\n        if processed.iter().any(|p| *p == i) {\n            continue;\n        }")], {'C12': 'D-hash'}),
+    M('env-switch', ['C12'], [(SD, "    let rightbound = sbbox.max.x.min(cbbox.max.x);", "    let rightbound = if std::env::var(\"BOOLEANOP_NO_BREAK\").is_ok() { F::infinity() } else { sbbox.max.x.min(cbbox.max.x) };")], {'C12': 'D-effects'}),
+    # ---- C15
+    M('cmp-y-inverted', ['C15'], [(SE, "        if p1.y > p2.y {\n            return Ordering::Less;\n        }\n        if p1.y < p2.y {\n            return Ordering::Greater;\n        }", "        if p1.y > p2.y {\n            return Ordering::Greater;\n        }\n        if p1.y < p2.y {\n            return Ordering::Less;\n        }")], {'C15': 'O-antisym-event'}),
+    M('cmp-left-negated', ['C15'], [(SE, "            return less_if(self.is_left());", "            return less_if(!self.is_left());")], {'C15': 'O-antisym-event'}),
+    M('cmp-fallback-self-subject', ['C15'], [(SE, "        less_if(!self.is_subject && other.is_subject)", "        less_if(self.is_subject)")], {'C15': 'O-antisym-event'}),
+    M('cmp-equal-same-point', ['C15'], [(SE, "        less_if(!self.is_subject && other.is_subject)", "        if self.is_subject == other.is_subject {\n            return Ordering::Equal;\n        }\n        less_if(!self.is_subject && other.is_subject)")], {'C15': 'O-noequal'}),
+    M('segments-equal-collinear', ['C15'], [(CS, "                less_if(se_old_l.contour_id < se_new_l.contour_id)", "                if se_old_l.contour_id == se_new_l.contour_id {\n                    return Ordering::Equal;\n                }\n                less_if(se_old_l.contour_id < se_new_l.contour_id)")], {'C15': 'O-equal-identity'}),
+    M('less_if-both-arms', ['C15'], [(CS, "(se2_l, se1_l, helper::less_if_inversed as fn(bool) -> Ordering)", "(se2_l, se1_l, helper::less_if as fn(bool) -> Ordering)")], {'C15': 'O-swap'}),
+    M('less_if_inversed-less-twice', ['C15'], [(HP, "    if condition {\n        Ordering::Greater\n    } else {\n        Ordering::Less\n    }", "    if condition {\n        Ordering::Less\n    } else {\n        Ordering::Less\n    }")], {'C15': 'O-swap'}),
+    M('bubble-swap-inverted', ['C15'], [(CE, "            if result_events[i - 1] < result_events[i] {", "            if result_events[i - 1] > result_events[i] {")], {'C15': 'O-consumers'}),
+    B('cmp-inline-less_if', ['C15'], [(SE, "            return less_if(self.is_left());", "            return if self.is_left() { Ordering::Less } else { Ordering::Greater };")]),
+    # ---- C17
+    M('size-on-replace', ['C17'], [(TR, "                        let old = mem::replace(&mut root.value, value);\n                        return Some(old);", "                        let old = mem::replace(&mut root.value, value);\n                        self.size += 1;\n                        return Some(old);")], {'C17': 'M-size'}),
+    M('swap-node-contents', ['C17'], [(TR, "                        mem::swap(&mut left, node);\n                        let none = mem::replace(&mut node.right, Some(left));", "                        mem::swap(&mut *left, &mut **node);\n                        let none = mem::replace(&mut node.right, Some(left));")], {'C17': 'M-stable'}),
+    M('set-prev-calls-next', ['C17'], [(ST, "        self.tree.prev(t).map(|kv| kv.0)", "        self.tree.next(t).map(|kv| kv.0)")], {'C17': 'M-mirror'}),
+    M('successor-on-equal', ['C17'], [(TR, "                Ordering::Less => {\n                    successor = Some((&node.key, &node.value));\n                    match node.left {\n                        Some(ref left) => node = left,\n                        None => break,\n                    }\n                }\n                Ordering::Equal | Ordering::Greater => match node.right {", "                Ordering::Less | Ordering::Equal => {\n                    successor = Some((&node.key, &node.value));\n                    match node.left {\n                        Some(ref left) => node = left,\n                        None => break,\n                    }\n                }\n                Ordering::Greater => match node.right {")], {'C17': 'M-direction'}),
+    M('remaining-not-decremented', ['C17'], [(TR, "                    self.cur = cur.pop_left();\n                    // left and right fields are both None\n                    let node = *cur;\n                    let Node { key, value, .. } = node;\n                    self.remaining -= 1;", "                    self.cur = cur.pop_left();\n                    // left and right fields are both None\n                    let node = *cur;\n                    let Node { key, value, .. } = node;")], {'C17': ['M-size', 'M-mirror']}),
 ]
